@@ -18,6 +18,7 @@ func main() {
 	replay := flag.String("replay", "", "replay artefact to re-execute")
 	verif := flag.String("verif", "/verif", "verif directory")
 	list := flag.Bool("list", false, "list registered properties and their build variant")
+	racepass := flag.Int("racepass", 0, "free-running pass: explore the property's race scenarios this many times (binary built with -race, VERIF_FREERUN=1)")
 	flag.Parse()
 	if *list {
 		for _, id := range props.IDs() {
@@ -75,6 +76,28 @@ func main() {
 		}
 		fmt.Println("INFRA: scenario not found:", art.Scenario)
 		os.Exit(2)
+	}
+	if *racepass > 0 {
+		if p.RaceScenarios == nil {
+			fmt.Println("RACEPASS none")
+			return
+		}
+		var execs int64
+		for i := 0; i < *racepass; i++ {
+			for _, s := range p.RaceScenarios(thorough) {
+				s.Workers = 1
+				s.Dedup = false
+				st := s.Explore()
+				execs += st.Execs
+				for _, v := range st.Violations {
+					if len(v.Sig) > 5 && v.Sig[:5] == "INFRA" {
+						fmt.Println("RACEPASS-INFRA", v.Sig, v.Msg)
+					}
+				}
+			}
+		}
+		fmt.Printf("RACEPASS executions=%d\n", execs)
+		return
 	}
 	c := explore.NewCheck(p.ID, *tier, p.Level, seed, *verif)
 	p.Run(c, thorough)
